@@ -36,7 +36,7 @@ namespace BitSerializer
 
 namespace BitSerializer::Convert::Detail
 {
-	constexpr size_t UtcBufSize = 32;
+	constexpr size_t UtcBufSize = 64;
 	constexpr int DaysInMonth[12] = { 31, 29, 31, 30, 31, 30, 31, 31, 30, 31, 30, 31 };
 
 	template <class TFractions = std::chrono::nanoseconds,
@@ -371,9 +371,10 @@ namespace BitSerializer::Convert::Detail
 				*pos++ = '+';
 			}
 			// The sign is included to width (negative years should be also printed with at least four digits)
-			const size_t outSize = snprintf(pos, endPos - pos, utc.Year < 0 ? "%05" PRId64 "-%02d-%02dT%02d:%02d:%02d" : "%04" PRId64 "-%02d-%02dT%02d:%02d:%02d",
+			const int outSize = snprintf(pos, endPos - pos, utc.Year < 0 ? "%05" PRId64 "-%02d-%02dT%02d:%02d:%02d" : "%04" PRId64 "-%02d-%02dT%02d:%02d:%02d",
 				utc.Year, utc.Month, utc.Day, utc.Hour, utc.Min, utc.Sec);
-			if (outSize > 0)
+			// Result of `snprintf` is a required size, it can be greater than available
+			if (outSize > 0 && outSize < endPos - pos)
 			{
 				pos += outSize;
 				if (utc.SecFractions) {
